@@ -50,10 +50,10 @@ def is_enzyme(sub) -> bool:
 
 
 def ident(sub):
-    """What identifies a substance, spelt out (name, kind, molar mass, density, molar concentration): the oracles key their
-    own books by this tuple, never by the library's `==` / `hash` of the object, so that two substances the library wrongly
-    takes for one another stay two in the books."""
-    return (sub.name, sub._type, sub.mol_weight, sub.density, sub.concentration)
+    """What identifies a substance, spelt out (name, kind, molar mass, density, molar concentration, specific activity): the
+    oracles key their own books by this tuple, never by the library's `==` / `hash` of the object, so that two substances the
+    library wrongly takes for one another stay two in the books."""
+    return (sub.name, sub._type, sub.mol_weight, sub.density, sub.concentration, getattr(sub, 'specific_activity', None))
 
 
 def ident_totals(*contents):
